@@ -1,4 +1,7 @@
 import ModbusModel.Model.Client
+import ModbusModel.Props.C06
+import ModbusModel.Lemmas.RoundTripRsp
+import ModbusModel.Lemmas.DecodeRange
 /-
   C20 – Typed reads return exactly the requested number of items or an error.
 -/
@@ -100,6 +103,75 @@ theorem typed_total (op : TypedOp) (res : CallResult) (hp : res ≠ .panic)
     cases r <;> simp_all [sameKind] <;>
       simp only [takeCoils, takeWords, verifyEcho, mapVal_ite] <;>
       (try split) <;> simp [Typed.mapVal])
+
+/-- **decoded_kind**: whatever the response decoder accepts is of the kind its first byte
+    denotes: the variant of that function code, or – for a code the decoder does not model –
+    raw custom data under exactly that code.  In particular no `Custom` ever carries a
+    modelled function code. -/
+theorem decoded_kind (fc : UInt8) (rest : Bytes) (r : Response) (h : decodeResponse (fc :: rest) = .ok r) :
+    r.functionCode.value = fc ∧ r.canonical := by
+  unfold decodeResponse at h
+  simp only at h
+  revert h
+  apply dispatch_cases2 (fun res => res = Res.ok r → r.functionCode.value = fc ∧ r.canonical)
+  · intro p hp hfc
+    simp only [responseArms, List.mem_cons, List.mem_nil_iff, or_false] at hp
+    rcases hp with h | h | h | h | h | h | h | h | h | h | h <;> subst h <;> simp only at hfc ⊢ <;> intro hr <;> subst hfc
+    · obtain ⟨_, rfl⟩ := decBits_range _ _ _ _ (sized_ok _ _ _ hr); exact ⟨rfl, trivial⟩
+    · obtain ⟨_, rfl⟩ := decBits_range _ _ _ _ (sized_ok _ _ _ hr); exact ⟨rfl, trivial⟩
+    · obtain ⟨_, _, rfl⟩ := decCoil_range _ _ _ hr; exact ⟨rfl, trivial⟩
+    · obtain ⟨_, _, rfl⟩ := dec2_range _ _ _ hr; exact ⟨rfl, trivial⟩
+    · obtain ⟨_, rfl⟩ := decRegs_range _ _ _ (sized_ok _ _ _ hr); exact ⟨rfl, trivial⟩
+    · obtain ⟨_, rfl⟩ := decRegs_range _ _ _ (sized_ok _ _ _ hr); exact ⟨rfl, trivial⟩
+    · obtain ⟨_, _, rfl⟩ := dec2_range _ _ _ hr; exact ⟨rfl, trivial⟩
+    · obtain ⟨_, _, rfl⟩ := dec2_range _ _ _ hr; exact ⟨rfl, trivial⟩
+    · obtain ⟨_, _, _, rfl⟩ := decReportServerId_range _ _ (sized_ok _ _ _ hr); exact ⟨rfl, trivial⟩
+    · obtain ⟨_, _, _, rfl⟩ := dec3_range _ _ _ hr; exact ⟨rfl, trivial⟩
+    · obtain ⟨_, rfl⟩ := decRegs_range _ _ _ (sized_ok _ _ _ hr); exact ⟨rfl, trivial⟩
+  · intro hnone hr
+    simp only [Res.ok.injEq] at hr
+    subst hr
+    refine ⟨rfl, ?_⟩
+    intro hmem
+    simp only [modelledCodes, List.mem_cons, List.mem_nil_iff, or_false] at hmem
+    rcases hmem with h | h | h | h | h | h | h | h | h | h | h <;> subst h <;> simp [responseArms, List.lookup] at hnone
+
+/-- a canonical response whose function code is numerically that of a typed operation's request
+    is of that operation's kind -/
+theorem sameKind_of_value (op : TypedOp) (r : Response) (hc : r.canonical)
+    (hv : r.functionCode.value = op.request.functionCode.value) :
+    sameKind op.request.functionCode r = true := by
+  cases op <;> cases r <;>
+    simp_all [sameKind, TypedOp.request, Request.functionCode, Response.functionCode, FunctionCode.value,
+      Response.canonical, modelledCodes]
+
+/-- **typed_total** without a premise about kinds: for every reply PDU the decoder can produce,
+    under any headers, what a typed method makes of the outcome of `call` is a result –
+    never a panic (`unreachable!`) -/
+theorem typed_never_panics (op : TypedOp) (reqHdr rspHdr : Hdr) (pdu : Bytes) (res : ResponseResult)
+    (hd : decodeResponsePdu pdu = .ok res) :
+    op.project (classify reqHdr op.request.functionCode rspHdr res) ≠ .panic := by
+  apply typed_total
+  · unfold classify
+    cases res <;> simp only <;> split <;> (try split) <;> simp
+  · intro r hr
+    obtain ⟨_, hres, hv⟩ := (Modbus.Props.C06.success_only_if reqHdr rspHdr op.request.functionCode res).1 r hr
+    subst hres
+    -- the reply was decoded from `pdu`
+    unfold decodeResponsePdu at hd
+    split at hd
+    · simp at hd
+    · rename_i fc rest
+      split at hd
+      · cases hdr : decodeResponse (fc :: rest) with
+        | ok r' =>
+          rw [hdr] at hd
+          simp [Res.map] at hd
+          subst hd
+          exact sameKind_of_value op r' (decoded_kind fc rest r' hdr).2 hv
+        | err k => rw [hdr] at hd; simp [Res.map] at hd
+        | panic => rw [hdr] at hd; simp [Res.map] at hd
+      · cases hde : decodeException (fc :: rest) <;> rw [hde] at hd <;> simp [Res.map] at hd
 
 -- non-vacuity
 example : (TypedOp.readCoils 0 3).project (.ok (.readCoils [true, false, true, false, false, false, false, false]))
